@@ -485,18 +485,22 @@ class InterpreterAnalyzer(ASTTemplate):
                 ) in self.regular_aggregation_dataset.components.items():
                     if comp.role in (Role.IDENTIFIER, Role.VIRAL_ATTRIBUTE):
                         comps_to_keep[comp_name] = copy(comp)
-                comps_to_keep[op_comp.name] = Component(
-                    name=op_comp.name,
+                # An aggregated Identifier is the Measure of the aggregation (same convention as
+                # the analytic operators); the Identifier itself stays available for grouping.
+                is_id = op_comp.role == Role.IDENTIFIER
+                agg_name = f"__vtl_op_{op_comp.name}" if is_id else op_comp.name
+                comps_to_keep[agg_name] = Component(
+                    name=agg_name,
                     data_type=op_comp.data_type,
-                    role=op_comp.role,
-                    nullable=op_comp.nullable,
+                    role=Role.MEASURE if is_id else op_comp.role,
+                    nullable=True if is_id else op_comp.nullable,
                 )
                 if operand.data is not None:
                     cols_to_keep = (
                         operand.get_identifiers_names() + operand.get_viral_attributes_names()
                     )
                     data_to_keep = operand.data[cols_to_keep].copy()
-                    data_to_keep[op_comp.name] = op_comp.data
+                    data_to_keep[agg_name] = op_comp.data
                 else:
                     data_to_keep = None
                 return Dataset(name=operand.name, components=comps_to_keep, data=data_to_keep)
